@@ -139,12 +139,12 @@ pub fn case_strategy() -> BoxedStrategy<(BuildCase, &'static str)> {
         prop_oneof![1 => Just(None), 1 => (0u8..8).prop_map(Some)],
     )
         .prop_flat_map(|(len, mode, level, version, mask)| {
-            raw_bytes(len).prop_map(move |(raw, fam)| {
+            (raw_bytes(len), any::<u16>()).prop_map(move |((raw, fam), warm_sel)| {
                 let input = match mode {
                     Some(m) => alphabet_map(m, raw),
                     None => raw,
                 };
-                (BuildCase::new(input, Opts { mode, level, version, mask }), fam)
+                (BuildCase::new(input, Opts { mode, level, version, mask }).with_warm_sel(warm_sel), fam)
             })
         })
         .boxed()
@@ -200,7 +200,7 @@ pub fn run(e: &'static Engine) {
         }));
     }
     e.par(jobs);
-    super::common::standard_parts(e, 9600, 144000, check);
+    super::common::standard_parts(e, 24000, 256000, check);
     let _ = hex(&[]);
     e.set_exhaustive(false, "option combinations and capacity boundaries are covered systematically; byte strings are sampled");
 }
